@@ -90,16 +90,15 @@ func (c *checker) flush() {
 	c.pend = c.pend[:0]
 }
 
+// known (unrepaired) findings. D16, D65 and D66 were repaired in /repo; their corpus witnesses are
+// ordinary regression inputs now: failing one is a violation.
 var findingText = map[string]string{
-	"D16": "a literal with an escaped backslash directly before the other quote character (\"a\\\\'b\") is rejected: quote.go replaces \\' blindly before strconv.Unquote",
 	"D18": "a keyword (or reserved word) directly followed by a newline reports the position after the newline: line+k, column ≤ 0; a docstring before it is dropped",
 	"D19": "a constant value directly after '=' or ':' is given the position of that '=' / ':'",
 	"D20": "a service's parent reference is given the position of 'extends'",
 	"D61": "idl.Info.Pos of an integer/double/boolean/string constant is the position of the LAST constant with an equal value (NodePositions is keyed by node value)",
 	"D62": "'/**/' followed later by any '*/' is scanned as one docstring: everything in between is swallowed and its newlines are not counted",
 	"D63": "a syntax error at end of input that follows blanks, a comment or an unterminated comment is reported at column 1-lineStart (≤ 0): the scanner resets ts to 0 when it skips",
-	"D66": "inside a single-quoted literal a quote character written as a numeric or \\u escape comes out as the other quote ('\\x27' yields a double quote): swapQuotes is applied to the unquoted result",
-	"D65": "a raw byte that is not well-formed UTF-8 inside a literal is replaced by U+FFFD (strconv.Unquote)",
 }
 
 // ---- the generic oracles: any byte string ----
@@ -325,7 +324,11 @@ func (c *checker) runLine(line string) {
 		case !holds && isFinding:
 			c.knownFinding(f[1], "parse "+f[2]+" → "+res.answer)
 		case !holds:
-			c.oracle("C11 parse(render(ast)) is not the printed tree", line, res.answer, "want "+truth+"; "+firstDiff(res.answer, truth))
+			kind := "C11 parse(render(ast)) is not the printed tree"
+			if f[1] != "GEN" {
+				kind = "C11 regression of repaired finding " + f[1]
+			}
+			c.oracle(kind, line, res.answer, "want "+truth+"; "+firstDiff(res.answer, truth))
 		}
 	case "unq1", "unq2":
 		b, err := unhx(f[1])
